@@ -1130,15 +1130,23 @@ struct ReplyWorld : World {
 				--ctx_refs;
 				log.ev("UNREF_CTX (refs left %d, handles %zu, sends %llu)", ctx_refs, handles.size(), (unsigned long long) (T.calls - before));
 				if (!last) {
-					// an owner went away while others remain: the library detaches the transport
+					// an owner went away while others remain: the library detaches the transport - after the armed request, which nobody can
+					// answer any more from then on, got its default reply
+					if (armed >= 0) {
+						Req &q = T.reqs[(size_t) armed];
+						if (!q.transport_lost && transport_attached && T.reject_next == 0 && op.fault != FL_REJECT && q.accepted != 1)
+							fail("no-default-reply", "a holder of the context let go (the transport is detached from then on) with request %llx armed and unanswered: transport accepted %d replies", (unsigned long long) q.id, q.accepted);
+						if (q.accepted == 1) { close_req((size_t) armed, true); armed = -1; }
+					}
 					transport_attached = false;
 					for (auto &q : T.reqs) if (!q.closed) q.transport_lost = true;
 				} else {
 					if (armed >= 0) {
 						Req &q = T.reqs[(size_t) armed];
-						if (!q.transport_lost && !others && T.reject_next == 0 && op.fault != FL_REJECT && q.accepted != 1)
-							fail("no-default-reply", "context released with request %llx armed and unanswered: transport accepted %d replies", (unsigned long long) q.id, q.accepted);
-						if (others || op.fault == FL_REJECT) q.transport_lost = true;
+						// (deferred handles of other requests keep the memory alive; they do not take the armed request's default reply away)
+						if (!q.transport_lost && T.reject_next == 0 && op.fault != FL_REJECT && q.accepted != 1)
+							fail("no-default-reply", "context released with request %llx armed and unanswered%s: transport accepted %d replies", (unsigned long long) q.id, others ? " (other requests are deferred)" : "", q.accepted);
+						if (q.accepted != 1 && (others || op.fault == FL_REJECT)) q.transport_lost = true;
 						close_req((size_t) armed, !q.transport_lost); armed = -1;
 					}
 					if (others) { transport_attached = false; for (auto &q : T.reqs) if (!q.closed) q.transport_lost = true; }
